@@ -14,7 +14,7 @@ pub static PROP: Prop = Prop {
     id: "C18",
     run,
     replay,
-    rule: "cases = (input, list incl. lists fitted around the needed size, mode subset) given to data::encodation_plan and data::encode_data(.., None, modes, false); oracle = encodable => plan is Some; plan names only enabled modes; positions never increase, are <= len and end at 0; the non-ASCII modes with >= 1 assigned character (adjacent equal entries merged) equal the latch list the reference decoder finds in the encoder's output, in order; capacity(symbol used) <= capacity(first listed symbol >= written + cost of the plan selected by the planner (hook H1)); non-trivial = plan has >= 1 switch to a non-ASCII mode; distinct by (input, configuration)",
+    rule: "cases = (input, list incl. lists fitted around the needed size, mode subset; plus an enumerated stage of Base256 fields at their limits: 249/250 bytes, fields filling each of the 48 sizes exactly and by one more or less, 1553..1557 bytes) given to data::encodation_plan and data::encode_data(.., None, modes, false); oracle = encodable (the encoder succeeds, or - for the mode sets {Base256} and {ASCII} - an always-legal form computed by the harness fits the largest listed symbol) => plan is Some; plan names only enabled modes; positions never increase, are <= len and end at 0; the non-ASCII modes with >= 1 assigned character (adjacent equal entries merged) equal the latch list the reference decoder finds in the encoder's output, in order; capacity(symbol used) <= capacity(first listed symbol >= written + cost of the plan selected by the planner (hook H1)); non-trivial = plan has >= 1 switch to a non-ASCII mode; distinct by (input, configuration)",
     assumptions: &["hook H1 reports the cost (whole codewords) of the plan selected by the last optimize() call on the calling thread", "not asserted: that a plan implies encodability, nor equality of predicted and actual length"],
     extra: super::no_extra,
     fuzz_runs: 200000,
@@ -35,6 +35,19 @@ pub fn check(c: &EncCase) -> Verdict {
         Ok(p) => p,
         Err(_) => return Verdict::Pass(Pass::new("planner-panic(C11)", false).count("planner_panics", 1)),
     };
+    // encodability decided without the encoder, for the two mode sets where one form is always legal:
+    // Base256 alone (one field with explicit length) and ASCII alone (digit pairs, upper shift)
+    if plan.is_none() {
+        if let Some((w, what)) = witness_len(&c.data, c.modes) {
+            let max_cap = mask_sorted_caps(c.list).last().copied().unwrap_or(0);
+            if w <= max_cap {
+                return fail(format!(
+                    "encodation_plan returns None but the input can be encoded: {} takes {} codewords, the largest listed symbol holds {} (input of {} bytes {:?}, modes {}, list {})",
+                    what, w, max_cap, n, show(&c.data), mode_names(c.modes), mask_names(c.list)
+                ));
+            }
+        }
+    }
     let (cw, size) = match enc {
         Ok(Ok(x)) => x,
         Ok(Err(_)) => return Verdict::Pass(Pass::new(format!("{}/refused{}", crate::obs::modes_class(c.modes), if plan.is_some() { "-with-plan" } else { "" }), false).count("refused", 1)),
@@ -129,6 +142,72 @@ pub fn check(c: &EncCase) -> Verdict {
     )
 }
 
+/// Length of an always-legal encoding for the mode sets {Base256} and {ASCII} (None: no statement).
+fn witness_len(data: &[u8], modes: u8) -> Option<(usize, &'static str)> {
+    let n = data.len();
+    if n == 0 {
+        return None;
+    }
+    if modes == Mode::Base256.bit() {
+        if n > 1555 {
+            return None;
+        }
+        return Some((1 + if n <= 249 { 1 } else { 2 } + n, "a single Base256 field with explicit length"));
+    }
+    if modes == Mode::Ascii.bit() {
+        let (mut i, mut w) = (0, 0);
+        while i < n {
+            if i + 1 < n && data[i].is_ascii_digit() && data[i + 1].is_ascii_digit() {
+                i += 2;
+                w += 1;
+            } else {
+                w += if data[i] >= 128 { 2 } else { 1 };
+                i += 1;
+            }
+        }
+        return Some((w, "plain ASCII encodation"));
+    }
+    None
+}
+
+/// Inputs at the limits of a Base256 field: the 249/250 length-byte boundary, the fields that fill each
+/// symbol exactly (explicit length) or by one more or less, and the longest field of all (1555 bytes).
+pub fn b256_limit_cases() -> Vec<EncCase> {
+    let mut lens: Vec<usize> = vec![1, 2, 248, 249, 250, 251, 252, 1553, 1554, 1555, 1556, 1557];
+    for s in SYMBOLS.iter() {
+        for head in [2usize, 3] {
+            for d in 0..3 {
+                if s.data + 1 >= head + d {
+                    lens.push(s.data + 1 - head - d);
+                }
+            }
+        }
+    }
+    lens.sort_unstable();
+    lens.dedup();
+    lens.retain(|n| *n >= 1);
+    let big = (0..48).max_by_key(|i| SYMBOLS[*i].data).unwrap();
+    let mut v = Vec::new();
+    for &n in &lens {
+        for (k, list) in [ALL_MASK, default_mask(), 1u64 << big].into_iter().enumerate() {
+            for modes in [32u8, 33, 63, 1] {
+                if modes == 1 && n > 800 {
+                    continue;
+                }
+                // two fillings: constant high byte, and varying bytes >= 128
+                for fill in 0..2 {
+                    if fill == 1 && (k != 0 || n > 300 && n < 1500) {
+                        continue;
+                    }
+                    let data: Vec<u8> = (0..n).map(|i| if fill == 0 { 0xFF } else { 0x80 | (i as u8).wrapping_mul(37) }).collect();
+                    v.push(EncCase { data, list, modes, macros: false, fnc1: false, eci: None, stratum: "b256-limit" });
+                }
+            }
+        }
+    }
+    v
+}
+
 fn run(ctx: &Arc<Ctx>) {
     let mut fixed = Vec::new();
     for s in [&b"ABCDEFGH12345678"[..], b"3108", b"Hello!", b"AIMAIMAIM", b"", b"1", b"ABC", b"*>\r ABC123", b"\xfaaaa"] {
@@ -137,6 +216,7 @@ fn run(ctx: &Arc<Ctx>) {
         }
     }
     ctx.run_enumerated("fixed", "enc", fixed, None, check);
+    ctx.run_enumerated("b256-limit", "enc", b256_limit_cases(), None, check);
     let o = EncGenOpts { long_weight: if ctx.quick() { 1 } else { 2 }, macro_weight: 0, allow_fnc1: false, allow_macros_flag: false, ..Default::default() };
     ctx.run_generated("generated", "enc", ctx.cases(400_000, 4_000_000), || g_enc_case(o), check);
     let _ = SYMBOLS.len();
